@@ -410,6 +410,7 @@ class DataElementParser:
         self.offset = offset
         self.depth = 0
         self.max_depth = max_depth
+        self.end: int | None = None  # End of the enclosing sequence, if any
 
     def parse_next(self) -> DataElement:
         if self.offset >= len(self.data):
@@ -450,6 +451,11 @@ class DataElementParser:
 
         value_start = self.offset
         value_end = self.offset + value_size
+        if self.end is not None and value_end > self.end:
+            raise InvalidPacketError(
+                f"SDP data element ends at {value_end}, "
+                f"past the end of its container ({self.end})"
+            )
 
         match element_type:
             case DataElement.NIL:
@@ -511,9 +517,11 @@ class DataElementParser:
                 f"SDP data element nesting exceeds max depth " f"({self.max_depth})"
             )
         self.depth += 1
+        outer_end, self.end = self.end, end_offset
         elements = []
         while self.offset < end_offset:
             elements.append(self.parse_next())
+        self.end = outer_end
         self.depth -= 1
         return elements
 
